@@ -54,6 +54,57 @@
 %define AS_FEATURE_LEVEL 4
 %endif
 
+%ifdef ISAL_CRYPTO_VERIF
+%ifidn __OUTPUT_FORMAT__, elf64
+;;;;
+; Verification hook (compiled only with -DISAL_CRYPTO_VERIF, off by default):
+; the run-time selection below reads CPUID and XCR0 through two harness-provided
+; C functions, so that a test can present any CPU to the unmodified selection
+; logic, and the binding cells are exported (see the mbin_interface macro).
+;   void isal_verif_cpuid(uint32_t regs[4]);   in: eax, ecx   out: eax, ebx, ecx, edx
+;   void isal_verif_xgetbv(uint32_t regs[4]);  in: ecx        out: eax, edx
+;;;;
+extern isal_verif_cpuid
+extern isal_verif_xgetbv
+%macro isal_verif_call 1
+	push	rbp
+	mov	rbp, rsp
+	push	rsi
+	push	rdi
+	push	r8
+	push	r9
+	push	r10
+	push	r11
+	sub	rsp, 16
+	and	rsp, -16
+	mov	[rsp], eax
+	mov	[rsp + 4], ebx
+	mov	[rsp + 8], ecx
+	mov	[rsp + 12], edx
+	mov	rdi, rsp
+	call	%1 wrt ..plt
+	mov	eax, [rsp]
+	mov	ebx, [rsp + 4]
+	mov	ecx, [rsp + 8]
+	mov	edx, [rsp + 12]
+	lea	rsp, [rbp - 48]
+	pop	r11
+	pop	r10
+	pop	r9
+	pop	r8
+	pop	rdi
+	pop	rsi
+	pop	rbp
+%endmacro
+%macro cpuid 0
+	isal_verif_call isal_verif_cpuid
+%endmacro
+%macro xgetbv 0
+	isal_verif_call isal_verif_xgetbv
+%endmacro
+%endif
+%endif
+
 ;;;;
 ; multibinary macro:
 ;   creates the visible entry point that uses HW optimized call pointer
@@ -65,6 +116,11 @@
 	; Therefore, *_dispatch_init is only executed on first call.
 	;;;;
 	section .data
+%ifdef ISAL_CRYPTO_VERIF
+	global %1_dispatched
+	global %1_mbinit
+	global %1_dispatch_init
+%endif
 	%1_dispatched:
 		mbin_def_ptr	%1_mbinit
 
